@@ -658,6 +658,12 @@ def run(ctx):
         n5, f5 = c10_keyexpr.run(ctx, 2 if quick else 10)
         total += n5
         found |= f5
+    if not found:
+        # session 3: run-time indices of every integer width at the boundaries of the index type and of the array
+        from vlib import c10_rtindex
+        n6, f6 = c10_rtindex.run(ctx, quick)
+        total += n6
+        found |= f6
     from vlib import c10_addr
     addr_ok = gen_err is None and (COQ / "C10" / "AddrTemplates.vo").exists() and (b["ok"] or "AddrTemplates" not in str(b.get("file", "")))
     n4, f4 = c10_addr.run(ctx, model_ok and addr_ok, 240 if quick else 2000)
